@@ -15,6 +15,7 @@ from symx.api import harness
 from spyne import Application, Service, rpc, ComplexModel
 from spyne.model.primitive import Integer, Unicode, Decimal, Date, Boolean, Double, Integer64, Integer32, Integer8, UnsignedInteger64
 from spyne.model.complex import Array
+from spyne.model.binary import ByteArray
 from spyne.model.fault import Fault
 from spyne.protocol.json import JsonDocument
 from spyne.protocol.yaml import YamlDocument
@@ -61,6 +62,11 @@ class Svc(Service):
     @rpc(Integer64, Integer32, Integer8, UnsignedInteger64, _returns=Integer64)
     def fixed(ctx, i64, i32, i8, u64):
         CAPTURE['args'] = (i64, i32, i8, u64)
+        return CAPTURE.get('ret')
+
+    @rpc(ByteArray, _returns=ByteArray)
+    def blob(ctx, data):
+        CAPTURE['args'] = (data,)
         return CAPTURE.get('ret')
 
     @rpc(Array(Integer), _returns=Array(Integer))
@@ -512,6 +518,95 @@ def fixed_width_ints(sx, cfg):
         node = node['fixedResult']
     ok.append(_leaf_eq(sx, 'int', node, r, wire))       # without wrappers a single return value is the document itself
     return sx.And(*ok)
+
+
+BLOB_SHAPES = [(3,), (1, 2), (2, 2), (2, 1, 1)]
+
+
+@harness('C02', params=[(c, sh) for c in CONFIGS if not c[2] and c[0] in ('json', 'yaml') for sh in BLOB_SHAPES],
+         label=lambda p: LABEL(p[0]) + ' chunks=%s' % (p[1],), functions=FUNCS + ['spyne.model.binary.ByteArray.to_base64',
+                                                                                 'spyne.model.binary.ByteArray.from_base64'],
+         bounds={'value': 'a ByteArray of 3..4 symbolic bytes returned as one or several chunks (every listed chunking) and sent as the '
+                          'base64 text of the whole; JSON and YAML'})
+def binary_values(sx, p):
+    """binary values travel as the base64 text of the whole byte string, however the value is chunked, and come back as the
+    same bytes"""
+    import base64
+    cfg, shape = p
+    pname, wrappers, as_list, validator = cfg
+    app, server = get(*cfg)
+    chunks = [sx.text('c%d' % i, n, lo=0, hi=255, bytes_=True) for i, n in enumerate(shape)]
+    whole = b''
+    for c in chunks:
+        whole = whole + c
+    # request: the documented text form of the whole value
+    if sx.symbolic:
+        from symx.stdmodels import b64encode_model
+        from symx.strs import CStr
+        text = CStr(list(b64encode_model(whole).c))          # the same characters as text
+    else:
+        text = base64.b64encode(whole).decode('ascii')
+    ctx = deliver(sx, pname, app, server, {'blob': {'data': text}})
+    got = ctx.in_object
+    if got is None or len(got) != 1 or not isinstance(got[0], (list, tuple)):
+        return False
+    joined = b''
+    for c in got[0]:
+        joined = joined + c
+    ok = [sx.eq(joined, whole)]
+    # response: the value as the user function returns it, in chunks
+    doc = respond(sx, pname, app, ctx, [tuple(chunks)])
+    if not isinstance(doc, (list, tuple)) or len(doc) != 1:
+        return False
+    node = _denorm(doc[0])
+    if wrappers:
+        if not isinstance(node, dict) or list(node.keys()) != ['blobResponse']:
+            return False
+        node = node['blobResponse']
+        if not isinstance(node, dict) or list(node.keys()) != ['blobResult']:
+            return False
+        node = node['blobResult']
+    if sx.is_bytes(node):
+        node = node.decode('ascii')
+    ok.append(sx.And(sx.is_str(node), sx.eq(node, text)))
+    return sx.And(*ok)
+
+
+CHUNK_TEXT = u'Zo\xeb \u20ac \U0001F600 z'
+
+
+@harness('C02', params=['json', 'yaml', 'msgpack'], functions=['spyne.protocol.json.JsonDocument.create_in_document',
+                                                              'spyne.protocol.yaml.YamlDocument.create_in_document',
+                                                              'spyne.protocol.msgpack.MessagePackDocument.create_in_document'],
+         bounds={'request': 'a request body carrying raw (unescaped) 2-, 3- and 4-byte UTF-8 characters, handed to the protocol in two '
+                            'chunks cut at every byte position (so every mid-character boundary is inside), or in one-byte chunks'})
+def chunked_request_bodies(sx, pname):
+    """the transport may hand the request over in blocks of any size: the text the function receives does not depend on
+    where the blocks are cut"""
+    import json as _j
+    app, server = get(pname, False, False, 'soft')
+    doc = {'f': {'a': 1, 's': CHUNK_TEXT}}
+    if pname == 'json':
+        data = _j.dumps(doc, ensure_ascii=False).encode('utf8')
+    elif pname == 'yaml':
+        import yaml
+        data = yaml.dump(doc, allow_unicode=True).encode('utf8')
+    else:
+        import msgpack
+        data = msgpack.packb(doc)
+    cut = sx.choose('cut', ['bytewise'] + list(range(1, len(data))))
+    chunks = [data[i:i + 1] for i in range(len(data))] if cut == 'bytewise' else [data[:cut], data[cut:]]
+    prot = app.in_protocol
+    ctx = MethodContext(server, MethodContext.SERVER)
+    ctx.in_string = iter(chunks)
+    ctx, = server.generate_contexts(ctx)
+    if ctx.in_error is not None:
+        return False
+    server.get_in_object(ctx)
+    if ctx.in_error is not None:
+        return False
+    got = ctx.in_object
+    return got is not None and got[0] == 1 and got[1] == CHUNK_TEXT
 
 
 def _int_text_eq(sx, text, v):
